@@ -301,6 +301,58 @@ func genCase(t *rapid.T) Case {
 				"", "abc", "256", "-129", "1.234", "m1:zzz", "zzz", "99999999999999999999", " 5", "5 ", "+5", "0x10", "\u0661", "101", "65536", "m0:d1", "d1", "m1:e1", "e1", "two", "TRUE", "1.50", "00",
 				"m1:d1", "zz:d1", "m0:e1", "zz:e1", "m1:d2", "m0:d2", ":d1", "m0:", "m1:one", "m0:5"}[g.Pick(49, "marg")]}
 	}
+	if c.Mutation != nil && c.Mutation.Kind == "badvalue" && g.Chance(2, 3, "typedbad") {
+		// type-aware near misses: pick the leaf first (same pre-order as the check uses), then a value its type should reject
+		var leaves []*D
+		var walkD func(ds []*D)
+		walkD = func(ds []*D) {
+			for _, d := range ds {
+				if len(d.Vals) > 0 {
+					leaves = append(leaves, d)
+				}
+				walkD(d.Kids)
+			}
+		}
+		walkD(c.Data)
+		if len(leaves) > 0 {
+			idx := g.Pick(len(leaves), "badleaf")
+			// identityref leaves have the richest near-miss space (qualified / unqualified / foreign module): prefer them half of the time
+			var idrefs []int
+			for i, l := range leaves {
+				if li, ok := w.vals[l.Name]; ok && li.ts != nil && (li.ts.Name == "identityref" || (li.ts.Name == "union" && li.ts.Members[0].Name == "identityref")) {
+					idrefs = append(idrefs, i)
+				}
+			}
+			if len(idrefs) > 0 && g.Bool("preferidref") {
+				idx = idrefs[g.Pick(len(idrefs), "idrefleaf")]
+			}
+			var pool []string
+			if li, ok := w.vals[leaves[idx].Name]; ok && li.ts != nil {
+				name := li.ts.Name
+				if name == "union" {
+					name = li.ts.Members[0].Name
+				}
+				switch {
+				case name == "identityref":
+					pool = []string{"m1:d1", "zz:d1", "m0:e1", "zz:e1", "m1:d2", "m0:d2", ":d1", "m0:", "d3", "m0:b0", "b0", "m1:b0"}
+				case strings.HasPrefix(name, "int") || strings.HasPrefix(name, "uint") || strings.HasSuffix(name, "percent"):
+					pool = []string{"128", "-129", "256", "-1", "65536", "1.0", "1e1", " 5", "5 ", "0x10", "\u0665", "101", "18446744073709551616", "-9223372036854775809", "2147483648"}
+				case name == "decimal64":
+					pool = []string{"1.234", "1e2", "abc", "1.", "0.001", ".5", "92233720368547758.08", "--1"}
+				case name == "enumeration":
+					pool = []string{"One", "one ", " one", "two", "two  words", "4", "m0:one", ""}
+				case name == "boolean":
+					pool = []string{"TRUE", "1", "yes", "True", " true", ""}
+				case name == "empty":
+					pool = []string{"x", " ", "0"}
+				}
+			}
+			if len(pool) > 0 {
+				c.Mutation.Pos = idx
+				c.Mutation.Arg = pool[g.Pick(len(pool), "badarg")]
+			}
+		}
+	}
 	return c
 }
 
